@@ -248,6 +248,13 @@ def obligations(tier):
     # frame: the terms are functions of (params, batch) only if evaluating leaves both unchanged — every function
     # in the call cone of the three evaluate methods that lives in jinns.loss / jinns.parameters is checked by the
     # ownership analysis of vf.frame (the C20 obligation, reported here for the functions C03 depends on)
+    # "at that point with the given parameters": when the batch carries one value of a parameter per point (C12), the
+    # dynamic term uses row i at point i — also when the rows are given as a flat vector
+    from contracts import c12
+    for kind in ("ODE", "statio", "nonstatio"):
+        for o in (c12.batched(kind, ("a", "b"), 2, flat=True), c12.batched(kind, ("a",), 2)):
+            o.name = o.name.replace("C12/", "C03/per_point_parameters/")
+            obs.append(o)
     from contracts import c20
     for q in c20.cone_names():
         if q.startswith(("jinns.parameters.", "jinns.loss._loss_utils", "jinns.loss._LossODE:LossODE.", "jinns.loss._LossPDE:LossPDEStatio.",
